@@ -49,6 +49,7 @@ type FaultPlan struct {
 	K      int    `json:"k"`      // its k-th file operation fails
 	Action string `json:"action"` // error | short
 	Frac   int    `json:"frac,omitempty"`
+	Errno  string `json:"errno,omitempty"` // EIO (default) ENOSPC ENOSYS (a flock that fails this way means "locking not supported")
 	Double bool   `json:"double,omitempty"` // the following operation fails too (rollback failing): only "no panic, no deadlock" is asserted
 }
 
@@ -105,6 +106,7 @@ func genPlan(t *rapid.T, tier string) any {
 	if rapid.IntRange(0, 2).Draw(t, "faulty") == 0 {
 		f := &FaultPlan{K: rapid.IntRange(0, 12).Draw(t, "k"), Action: rapid.SampledFrom([]string{"error", "short"}).Draw(t, "action")}
 		f.Frac = rapid.SampledFrom([]int{1, 500, 999}).Draw(t, "frac")
+		f.Errno = rapid.SampledFrom([]string{"", "", "ENOSPC", "ENOSYS", "ENOSYS"}).Draw(t, "errno")
 		f.Op = Op{Kind: "transform", TKind: rapid.SampledFrom([]string{"longer", "shorter", "same", "error"}).Draw(t, "ftkind"),
 			Delta: rapid.SampledFrom([]int{1, 7, 300, 5000, 40000}).Draw(t, "fdelta")}
 		if tier == "thorough" && rapid.IntRange(0, 5).Draw(t, "double") == 0 {
@@ -464,7 +466,7 @@ func run(t *testing.T, plan any, keep bool) *simcheck.Outcome {
 		}
 		if p.Fault != nil {
 			remaining++
-			fl := []simos.Fault{{Proc: 9, Nth: p.Fault.K, Action: p.Fault.Action, Frac: p.Fault.Frac}}
+			fl := []simos.Fault{{Proc: 9, Nth: p.Fault.K, Action: p.Fault.Action, Frac: p.Fault.Frac, Errno: p.Fault.Errno}}
 			if p.Fault.Double {
 				fl[0].Repeat = 1
 			}
@@ -563,7 +565,7 @@ var harness = &simcheck.Harness{
 	Property: "C07",
 	Level:    "exploration",
 	Rule: "rapid draws 1-3 simulated processes x 1-2 goroutines x 1-4 operations (Read, Write of a self-checking value of length 0..70000 fed in chunks, Transform producing a longer / shorter / same-length / unchanged value, a prefix of or an in-place extension of the slice it was given, or failing) " +
-		"on one file that exists (5 of 6) or is absent at the start, named directly or (two plans in five) through a symbolic link by all or by every other client; a third of the plans add one Transform in its own process whose k-th file operation fails or writes short then fails; thorough adds double faults; " +
+		"on one file that exists (5 of 6) or is absent at the start, named directly or (two plans in five) through a symbolic link by all or by every other client; a third of the plans add one Transform in its own process whose k-th file operation (open, flock, read, write, truncate, close) fails with EIO / ENOSPC / ENOSYS or writes short then fails; thorough adds double faults; " +
 		"torn transfers on/off; histories of at most 24 operations are checked with porcupine; non-trivial = some operation started while another was in flight; distinct by decision-trace hash",
 	Gen:     genPlan,
 	NewPlan: func() any { return &Plan{} },
